@@ -57,6 +57,18 @@ def import_pkg():
     global IMPORT_PID
     IMPORT_PID = os.getpid()      # the process that imports the package (library code may remember it)
     import kneeliverse
+    try:
+        # every submodule now, whatever the package's own import style (PEP 562 lazy imports included): the seams
+        # and the step budget are installed on the modules that exist at warm-up
+        import importlib
+        import pkgutil
+        for m_ in pkgutil.iter_modules(kneeliverse.__path__):
+            try:
+                importlib.import_module('kneeliverse.' + m_.name)
+            except Exception:
+                pass
+    except Exception:
+        pass
     f = os.path.realpath(kneeliverse.__file__)
     if not f.startswith(os.path.realpath(REPO_SRC) + os.sep):
         raise RuntimeError('kneeliverse imported from %s, expected under %s' % (f, REPO_SRC))
